@@ -58,7 +58,10 @@ NOT_APPLICABLE = {
            'str::split/trim, a match on captured &str, u8::from_str_radix on sub-slices, HashMap::entry(..).or_insert_with(|| '
            'g.next_id()) (a closure that mutates the graph): none of it has a Verus specification and regex cannot be given one '
            'short of re-stating it; only the loop of deploy_to() (count = number of commands, stop at the first Err) is within '
-           'reach, which is not the property; Kani cannot execute regex',
+           'reach, which is not the property; Kani cannot execute regex. Re-judged after C17 came within reach: the string machinery used '
+           'there needs functions without generic parameters (deploy_to / deploy_one / parse carry `const N`), and what would remain '
+           'provable is "the calls made are those the uninterpreted captures of the uninterpreted regexes name" - whitespace, '
+           'comments, prefixes and hex formatting, i.e. the statement, would sit in trusted regex contracts',
 }
 
 GRAPH_TRUSTED = [
